@@ -330,9 +330,9 @@ func init() {
 		x := fr.x
 		t := typeOfArg(args[0])
 		if a, ok := t.Underlying().(*types.Array); ok {
-			x.noteAlloc(a.Len())
+			x.noteAlloc(a.Len() * elemSize(a.Elem()))
 			if a.Len() > 1<<20 {
-				x.unsupported(fmt.Sprintf("reflect.New of an array of %d elements", a.Len()))
+				x.targetPanicStr(fmt.Sprintf("runtime: out of memory (modelled: reflect.New of an array of %d elements)", a.Len()))
 			}
 		}
 		v := x.zero(t)
@@ -363,11 +363,11 @@ func init() {
 		if ln < 0 || cp < ln {
 			x.targetPanicStr("reflect.MakeSlice: len/cap out of range")
 		}
-		x.noteAlloc(cp)
-		if cp > 1<<20 {
-			x.unsupported(fmt.Sprintf("reflect.MakeSlice of %d elements", cp))
-		}
 		el := t.Underlying().(*types.Slice).Elem()
+		x.noteAlloc(cp * elemSize(el))
+		if cp > 1<<20 {
+			x.targetPanicStr(fmt.Sprintf("runtime: out of memory (modelled: reflect.MakeSlice of %d elements)", cp))
+		}
 		return x.mkRValue(&rval{t: t, val: Slice{S: x.makeBacking(el, int(cp))[:ln]}})
 	})
 	mkMap := func(fr *frame, args []Value) Value {
@@ -376,7 +376,7 @@ func init() {
 		mt := t.Underlying().(*types.Map)
 		if len(args) > 1 {
 			n := x.concreteInt(args[1].(*Term), "MakeMapWithSize")
-			x.noteAlloc(n)
+			x.noteAlloc(n * (elemSize(mt.Key()) + elemSize(mt.Elem())))
 		}
 		x.mapSeq++
 		return x.mkRValue(&rval{t: t, val: &Map{kt: mt.Key(), vt: mt.Elem(), id: x.mapSeq}})
